@@ -29,15 +29,69 @@ BIG_NAMES = trees.NAMES + ["größe", "данные", "match", "case", "type", "
 
 def plan_shards(pid, tier):
     n_shards, n = (2, 30) if tier == "quick" else (6, 400)
-    return [{"kind": "combos", "n": n} for _ in range(n_shards)]
+    return [{"kind": "combos", "n": n, "first": i == 0} for i in range(n_shards)]
+
+
+# The smallest, emptiest, most repetitive legal projects (each scanned under every option preset below)
+DEGENERATE = {
+    "one-file": {"m.py": "import os\n"},
+    "only-init": {"__init__.py": ""},
+    "only-inits-nested": {"__init__.py": "", "a/__init__.py": "", "a/b/__init__.py": ""},
+    "only-sub-directories": {"a/b/.keep": "", "c/.keep": ""},
+    "zero-byte-files": {"__init__.py": "", "a.py": "", "p/__init__.py": "", "p/b.py": ""},
+    "imports-itself": {"__init__.py": "", "m.py": "import proj.m\nfrom proj import m\nfrom . import m\n", "p/__init__.py": "from . import __init__\n", "p/q.py": "import proj.p.q\n"},
+    "one-statement-many-times": {"__init__.py": "", "a.py": "import proj.b\n" * 5 + "from proj import b\n" * 3, "b.py": "import proj.a\nimport proj.a\n"},
+    "single-chain": {"a/b/c/d/leaf.py": "import proj.a\nimport proj.a.b.c.d.leaf\nfrom proj.a.b import c\n"},
+    "pycache-with-sources": {"__init__.py": "", "a.py": "import proj.b\n", "b.py": "", "__pycache__/a.cpython-312.pyc": "\x00", "__pycache__/stale.py": "import proj.a\n", "p/__pycache__/x.py": "import proj.b\n", "p/__init__.py": ""},
+    "one-file-per-level": {"top.py": "import proj.l1.mid\n", "l1/mid.py": "import proj.l1.l2.low\nimport json.decoder\n", "l1/l2/low.py": "import proj.top\nimport os.path\n"},
+}
+PRESETS = [
+    ("", {}),
+    ("", {"exclude_external_libraries": False}),
+    ("", {"level_limit": 1}),
+    ("", {"level_limit": 2}),
+    ("", {"level_limit": 9}),
+    ("", {"exclusions": ("*",)}),
+    ("", {"exclusions": ("**",)}),
+    ("", {"exclusions": ("",)}),
+    ("", {"exclusions": ("*__init__.py",)}),
+    ("", {"exclusions": (), "regex_exclusions": ("",)}),
+    ("", {"exclusions": (), "regex_exclusions": (".*",)}),
+    ("", {"exclusions": ("*proj",)}),
+    ("", {"exclude_external_libraries": False, "external_exclusions": ("*",)}),
+    ("", {"exclude_external_libraries": False, "external_exclusions": ("os",), "level_limit": 1}),
+    ("leaf", {}),
+    ("leaf", {"level_limit": 1}),
+    ("leaf", {"exclude_external_libraries": False}),
+]
+
+
+def degenerate(pid, acc):
+    for name, files in DEGENERATE.items():
+        spec = {"root": "proj", "dirs": [], "files": dict(files)}
+        dirs = [d for d in trees.all_dirs(spec) if d]
+        leaf = max(dirs, key=lambda d: (d.count("/"), d)) if dirs else ""
+        for where, o in PRESETS:
+            for entry in ("path", "object", "positional"):
+                try:
+                    project(pid, f"degenerate:{name}", acc, fixed=(spec, leaf if where == "leaf" else "", dict(o), entry))
+                except Exception as e:  # noqa: BLE001  (a scan that raises has been recorded by the scan monitor)
+                    acc.hist("degenerate_scans_that_raised", f"{name}:{type(e).__name__}")
+        acc.count("degenerate_projects")
 
 
 def run_shard(pid, spec, acc):
+    if spec.get("first"):
+        degenerate(pid, acc)
     for i in range(spec["n"]):
         project(pid, f"{spec['seed']}:{i}", acc)
 
 
 def replay(pid, case, acc):
+    if str(case["pseed"]).startswith("degenerate:"):
+        files = DEGENERATE[case["pseed"].split(":", 1)[1]]
+        o = {k: tuple(v) if isinstance(v, list) else v for k, v in case["options"].items()}
+        return project(pid, case["pseed"], acc, fixed=({"root": "proj", "dirs": [], "files": dict(files)}, case["mp"], o, case["entry"] if case["entry"] != "other" else "path"))
     project(pid, case["pseed"], acc)
 
 
@@ -91,6 +145,12 @@ def _scan(root, mp_abs, o, entry, case, acc):
     HUB.case = case
     if entry == "object":
         get_evaluable_architecture_for_module_objects(_fake_module(root), _fake_module(mp_abs), **o)
+    elif entry == "positional":
+        # the same request with every argument passed by position, in the documented order
+        order = ["exclusions", "exclude_external_libraries", "level_limit", "regex_exclusions", "external_exclusions", "regex_external_exclusions"]
+        defaults = {"exclusions": ("*__pycache__*",), "exclude_external_libraries": True, "level_limit": None, "regex_exclusions": None, "external_exclusions": None, "regex_external_exclusions": None}
+        get_evaluable_architecture(root, mp_abs, *[o.get(k, defaults[k]) for k in order])
+        acc.count("scans_with_all_arguments_passed_by_position")
     else:
         get_evaluable_architecture(root, mp_abs, **o)
     acc.evaluated()
@@ -98,7 +158,7 @@ def _scan(root, mp_abs, o, entry, case, acc):
     return HUB.scan_events[-1]
 
 
-def project(pid, pseed, acc):
+def project(pid, pseed, acc, fixed=None):
     rnd = random.Random(pseed)
     names = BIG_NAMES if rnd.random() < 0.5 else trees.NAMES
     big = rnd.random() < 0.25
@@ -120,7 +180,9 @@ def project(pid, pseed, acc):
             o.pop("regex_exclusions", None)
         else:
             o.pop("level_limit")
-    entry = "object" if rnd.random() < 0.25 else "path"
+    entry = "object" if rnd.random() < 0.25 else "positional" if rnd.random() < 0.15 else "path"
+    if fixed:
+        spec, mp_rel, o, entry = fixed
     root = trees.write_tree(spec)
     case = {"kind": "combos", "pseed": pseed, "mp": mp_rel, "options": {k: list(v) if isinstance(v, tuple) else v for k, v in o.items()}, "entry": entry}
     try:
